@@ -439,4 +439,32 @@ partial def joinTie (c : Ctx V) (all : Bool) : Expr V → Bool
   | .stepInv e => joinTie c all e
   | _ => false
 
+/-- `hasTie` on the engine's side: a topk/bottomk whose operand - as the engine model computes it,
+which matters when the reference fails where the engine goes on (vector matching, known
+findings) - has a tie at the selection boundary at some step -/
+partial def hasTieEng (c : Ctx V) (grid : List Int) : Expr V → Bool
+  | .aggP op without grouping p e =>
+    hasTieEng c grid p || hasTieEng c grid e ||
+      ((op == "topk" || op == "bottomk") &&
+        match engOp c p, engOp c e with
+        | .ok po, .ok eo =>
+          grid.any fun t =>
+            match scalarOf po t, eo.step t with
+            | .ok pv, .ok xs =>
+              if !inInt64 pv || toInt pv < 1 then false
+              else
+                (groupBy (fun (x : Labels × V) => groupKey without grouping x.1)
+                    (xs.filterMap fun x => (eo.series[x.1]?).map fun s => (s, x.2))).any fun g =>
+                  groupOrderDependent (op == "topk") (toInt pv).toNat (g.2.map (·.2))
+            | _, _ => false
+        | _, _ => false)
+  | .agg _ _ _ e => hasTieEng c grid e
+  | .call _ args => args.any (hasTieEng c grid)
+  | .bin _ _ _ l r => hasTieEng c grid l || hasTieEng c grid r
+  | .neg e => hasTieEng c grid e
+  | .pos e => hasTieEng c grid e
+  | .paren e => hasTieEng c grid e
+  | .stepInv e => hasTieEng c [c.start] e
+  | _ => false
+
 end PromqlVerif
